@@ -487,6 +487,12 @@ func init() {
 			return nil, fmt.Errorf("materialise prior: %w", err)
 		}
 		rec2 := &recBackend{inner: env.fs}
+		if gf, ok := req["getfault"].(map[string]any); ok {
+			// the n-th backend operation of the restore fails ("err") or its reader fails after the first byte ("err-mid")
+			n, _ := gf["n"].(float64)
+			kind, _ := gf["kind"].(string)
+			rec2.plan = map[int]string{int(n): kind}
+		}
 		cas2 := caching.NewCas(rec2)
 		reg2 := output.NewRegistry(env.ctx, cas2)
 		outs2 := outs
@@ -527,6 +533,30 @@ func init() {
 			return nil, err
 		}
 		res["after"] = after
+		if _, ok := req["getfault"]; ok {
+			// the next build: a fresh process restores again, without faults, over whatever the failed restore left behind
+			quiesce(env.ws)
+			reg3 := output.NewRegistry(env.ctx, caching.NewCas(env.fs))
+			target3 := &model.Target{Label: label.TL(pkg, "t"), ChangeHash: "k1", Outputs: outs2}
+			if bin != "" {
+				target3.BinOutput = model.NewOutput("file", bin)
+			}
+			l2err, hung2 := withTimeout(20*time.Second, func() error { return reg3.LoadOutputs(env.ctx, target3, result, nil) })
+			switch {
+			case hung2:
+				res["load2"] = "hang"
+			default:
+				res["load2"] = errClass(l2err)
+				if l2err != nil {
+					res["load2_msg"] = l2err.Error()
+				}
+			}
+			after2, err := listing(env.ws)
+			if err != nil {
+				return nil, err
+			}
+			res["after2"] = after2
+		}
 		return res, nil
 	})
 
@@ -1188,6 +1218,8 @@ func (c *callRec) tiers(path, key string) (bool, bool) {
 }
 
 func (c *callRec) Exists(ctx context.Context, path, key string) (bool, error) {
+	c.log.inflight.Add(1)
+	defer c.log.inflight.Add(-1)
 	// calls on one key are serialised in the recorder so that the logged order is the order of effects
 	kl := c.log.lockFor(path, key)
 	kl.Lock()
@@ -1213,6 +1245,8 @@ func (c *callRec) ExistsInAllTiers(ctx context.Context, path, key string) (bool,
 }
 
 func (c *callRec) Get(ctx context.Context, path, key string) (io.ReadCloser, error) {
+	c.log.inflight.Add(1)
+	defer c.log.inflight.Add(-1)
 	// calls on one key are serialised in the recorder so that the logged order is the order of effects
 	kl := c.log.lockFor(path, key)
 	kl.Lock()
@@ -1255,6 +1289,8 @@ func (c *callRec) Get(ctx context.Context, path, key string) (io.ReadCloser, err
 }
 
 func (c *callRec) Set(ctx context.Context, path, key string, content io.Reader) error {
+	c.log.inflight.Add(1)
+	defer c.log.inflight.Add(-1)
 	// calls on one key are serialised in the recorder so that the logged order is the order of effects
 	kl := c.log.lockFor(path, key)
 	kl.Lock()
@@ -1513,6 +1549,8 @@ func init() {
 				}
 				results = append(results, r)
 			}
+			// a failed WriteOutputs returns while other uploads of the same target are still running
+			tl.waitIdle()
 			step["results"] = results
 			step["dangling"] = remoteClosure(remote)
 			steps = append(steps, step)
